@@ -113,11 +113,16 @@ pub fn chance(r: &mut SplitMix, percent: u64) -> bool {
 
 /// Strips the repository prefix from a panic location so that signatures are
 /// stable across checkouts (`/verif/sim/shadow/../repo/src/x.rs:1` -> `src/x.rs:1`).
+/// Locations outside the repository (harness, simulator, dependencies) keep their full path.
 pub fn norm_location(loc: &str) -> String {
-    match loc.find("/src/") {
-        Some(i) if loc.contains("repo") || loc.starts_with("/") => loc[i + 1..].to_string(),
-        _ => loc.to_string(),
+    match loc.find("repo/src/") {
+        Some(i) => loc[i + 5..].to_string(),
+        None => loc.to_string(),
     }
+}
+/// A panic raised by the verification machinery itself (not by the code under test).
+pub fn is_harness_location(class: &str) -> bool {
+    class.starts_with("panic@") && (class.contains("/sim/harness/") || class.contains("/sim/simrt/") || class.starts_with("panic@src/props/") || class.starts_with("panic@src/driver") || class.starts_with("panic@src/main"))
 }
 
 pub fn hex(b: &[u8]) -> String {
